@@ -290,4 +290,142 @@ theorem wfRun_abs (post : List Line) : ∀ (pre : List Line) (s s' : WF), Abs pr
     have := ih (pre ++ [l]) (wfNext s l) s' (abs_next pre s l h hok) hr'
     simpa [List.append_assoc] using this
 
+/-! ### rejected traces: which clause fails -/
+
+theorem needType_bind_err (s : WF) (t : Nat) (f : Unit → Except Why WF) (e : Why) :
+    (needType s t >>= f) = .error e ↔ (t ∉ s.types ∧ e = .undeclaredType) ∨ (t ∈ s.types ∧ f () = .error e) := by
+  unfold needType
+  by_cases h : t ∈ s.types <;> simp [h, bind, Except.bind, eq_comm]
+
+theorem needValue_bind_err (s : WF) (v : Nat) (f : Unit → Except Why WF) (e : Why) :
+    (needValue s v >>= f) = .error e ↔ (v ∉ s.values ∧ e = .undeclaredValue) ∨ (v ∈ s.values ∧ f () = .error e) := by
+  unfold needValue
+  by_cases h : v ∈ s.values <;> simp [h, bind, Except.bind, eq_comm]
+
+theorem useCont_err (s : WF) (ts c : Nat) (e : Why) :
+    useCont s ts c = .error e ↔ (ts < s.now ∧ e = .timeDecreases) ∨ (s.now ≤ ts ∧ c ∈ s.dead ∧ e = .useAfterDestroy) ∨
+      (s.now ≤ ts ∧ c ∉ s.dead ∧ c ∉ s.conts ∧ e = .undeclaredContainer) := by
+  unfold useCont
+  by_cases h1 : ts < s.now
+  · have : ¬ s.now ≤ ts := by omega
+    simp [h1, this, eq_comm]
+  · have h1' : s.now ≤ ts := by omega
+    by_cases h2 : c ∈ s.dead
+    · simp [h1, h1', h2, eq_comm]
+    · by_cases h3 : c ∈ s.conts <;> simp [h1, h1', h2, h3, eq_comm]
+
+theorem useCont_bind_err (s : WF) (ts c : Nat) (f : WF → Except Why WF) (e : Why) :
+    (useCont s ts c >>= f) = .error e ↔ useCont s ts c = .error e ∨
+      (s.now ≤ ts ∧ c ∉ s.dead ∧ c ∈ s.conts ∧ f { s with now := ts } = .error e) := by
+  cases h : useCont s ts c with
+  | error e' =>
+    have : ¬ (s.now ≤ ts ∧ c ∉ s.dead ∧ c ∈ s.conts) := by
+      intro hh
+      have := (useCont_ok s ts c { s with now := ts }).mpr ⟨hh.1, hh.2.1, hh.2.2, rfl⟩
+      rw [h] at this; cases this
+    simp [bind, Except.bind]
+    intro a b c; exact absurd ⟨a, b, c⟩ this
+  | ok s1 =>
+    obtain ⟨a, b, c, d⟩ := (useCont_ok s ts c s1).mp h
+    subst d
+    simp [bind, Except.bind, a, b, c]
+
+/-- state-level reading of an error class -/
+def ErrS : Why → WF → Line → Prop
+  | .undeclaredType, s, l => ∃ t ∈ usedTypes l, t ∉ s.types
+  | .undeclaredValue, s, l => ∃ v ∈ usedValues l, v ∉ s.values
+  | .undeclaredContainer, s, l => ∃ c ∈ usedConts l, c ∉ s.conts
+  | .timeDecreases, s, l => ∃ ts, lineTs l = some ts ∧ ts < s.now
+  | .useAfterDestroy, s, l => ∃ c ∈ usedConts l, c ∈ s.dead
+  | .popEmpty, s, l => ∃ ts t c, l = .popState ts t c ∧ getDepth s.depth (c, t) = 0
+  | .duplicate, s, l => (∃ id, lineDefType l = some id ∧ id ∈ s.types) ∨ (∃ id, lineCreates l = some id ∧ id ∈ s.conts)
+
+theorem wfStep_error (s : WF) (l : Line) (e : Why) (h : wfStep s l = .error e) : ErrS e s l := by
+  cases l <;>
+    simp only [wfStep, needType_bind_err, needValue_bind_err, useCont_bind_err, useCont_err] at h <;>
+    cases e <;>
+    simp [ErrS, usedTypes, usedValues, usedConts, lineDefType, lineCreates, lineTs] at h ⊢
+  all_goals grind
+
+theorem errS_violates (pre : List Line) (s : WF) (l : Line) (e : Why) (h : Abs pre s) (he : ErrS e s l) :
+    Violates e pre l := by
+  cases e <;> simp only [ErrS, Violates] at he ⊢
+  · obtain ⟨t, ht, hn⟩ := he
+    rw [h.types] at hn
+    exact ⟨t, ht, not_or.mp hn⟩
+  · obtain ⟨v, hv, hn⟩ := he
+    rw [h.values] at hn
+    exact ⟨v, hv, hn⟩
+  · obtain ⟨c, hc, hn⟩ := he
+    rw [h.conts] at hn
+    exact ⟨c, hc, not_or.mp hn⟩
+  · obtain ⟨ts, hts, hlt⟩ := he
+    refine ⟨ts, hts, ?_⟩
+    rw [h.now] at hlt
+    have hn : ¬ maxTs pre ≤ ts := by omega
+    rw [maxTs_le_iff] at hn
+    simp only [Classical.not_forall, Nat.not_le] at hn
+    obtain ⟨ts', hm, hgt⟩ := hn
+    exact ⟨ts', hm, hgt⟩
+  · obtain ⟨c, hc, hd⟩ := he
+    exact ⟨c, hc, (h.dead c).mp hd⟩
+  · obtain ⟨ts, t, c, e1, e2⟩ := he
+    exact ⟨ts, t, c, e1, by rw [← h.depth]; exact e2⟩
+  · rcases he with ⟨id, e1, e2⟩ | ⟨id, e1, e2⟩
+    · exact Or.inl ⟨id, e1, (h.types id).mp e2⟩
+    · exact Or.inr ⟨id, e1, (h.conts id).mp e2⟩
+
+/-- a violated clause is really a failure of `LineOk` -/
+theorem violates_not_lineOk (pre : List Line) (l : Line) (e : Why) (hv : Violates e pre l) : ¬ LineOk pre l := by
+  intro hl
+  cases e <;> simp only [Violates] at hv
+  · obtain ⟨t, ht, h0, hn⟩ := hv
+    rcases hl.typesDeclared t ht with h | h <;> contradiction
+  · obtain ⟨v, hv', hn⟩ := hv
+    exact hn (hl.valuesDeclared v hv')
+  · obtain ⟨c, hc, h0, hn⟩ := hv
+    rcases hl.contsDeclared c hc with h | h <;> contradiction
+  · obtain ⟨ts, hts, ts', hm, hlt⟩ := hv
+    have := hl.clock ts hts ts' hm
+    omega
+  · obtain ⟨c, hc, hd⟩ := hv
+    exact hl.alive c hc hd
+  · obtain ⟨ts, t, c, e1, e2⟩ := hv
+    have := hl.popBalanced ts t c e1
+    omega
+  · rcases hv with ⟨id, e1, e2⟩ | ⟨id, e1, e2⟩
+    · have := hl.typeFresh id e1
+      rcases e2 with e2 | e2
+      · exact this.1 e2
+      · exact this.2 e2
+    · have := hl.contFresh id e1
+      rcases e2 with e2 | e2
+      · exact this.1 e2
+      · exact this.2 e2
+
+/-- a rejected run stops at a first rejected line, after an accepted prefix -/
+theorem wfRun_error_split (post : List Line) : ∀ (s : WF) (e : Why), wfRun s post = .error e →
+    ∃ p l q s1, post = p ++ l :: q ∧ wfRun s p = .ok s1 ∧ wfStep s1 l = .error e := by
+  induction post with
+  | nil => intro s e h; simp [wfRun] at h
+  | cons l post ih =>
+    intro s e h
+    simp only [wfRun] at h
+    cases hs : wfStep s l with
+    | error e' =>
+      rw [hs] at h
+      simp at h; subst h
+      exact ⟨[], l, post, s, rfl, rfl, hs⟩
+    | ok s1 =>
+      rw [hs] at h
+      obtain ⟨p, l', q, s2, e1, e2, e3⟩ := ih s1 e h
+      refine ⟨l :: p, l', q, s2, by simp [e1], ?_, e3⟩
+      simp only [wfRun, hs]; exact e2
+
+theorem wfRun_error_violates (ls : List Line) (e : Why) (h : wfRun {} ls = .error e) :
+    ∃ pre l post s1, ls = pre ++ l :: post ∧ wfRun {} pre = .ok s1 ∧ Violates e pre l := by
+  obtain ⟨p, l, q, s1, e1, e2, e3⟩ := wfRun_error_split ls {} e h
+  have habs : Abs p s1 := by simpa using wfRun_abs p [] {} s1 abs_init e2
+  exact ⟨p, l, q, s1, e1, e2, errS_violates p s1 l e habs (wfStep_error s1 l e e3)⟩
+
 end SgVerif.C47
